@@ -31,7 +31,7 @@ for line in open(lst):
         if m: cur = m.group(1)
         m = re.match(r'\s+sig=(\S+)', l)
         if m and cur: sigs.append(f"{cur}:{m.group(1)}")
-    confirmed = ("== clean tree: demo\nok" in ctxt) and (re.search(r'== patched: demo\n(--- FAIL|FAIL|panic)', ctxt) is not None)
+    confirmed = ("== clean tree: demo\nok" in ctxt) and (re.search(r'== patched: demo\n(.*\n){0,8}?(--- FAIL|FAIL|panic)', ctxt) is not None)
     dst = f"/verif/seeded/{nid}"
     os.makedirs(dst, exist_ok=True)
     for f in os.listdir(os.path.join(src, sid)):
